@@ -161,6 +161,14 @@ func e2eSession(run *vk.Run, srv *vsrv.Server, a e2eArgs, s int) {
 			pos += 1 + r.IntN(25)
 		}
 	}
+	// a packet lost for good shortly before the end (after the last keyframe, which is what
+	// the NACK writer still forwards): the subject of the total-loss interval below
+	lastLost := n - 12
+	if lastLost%100 == 0 {
+		lastLost++
+	}
+	lost[lastLost] = true
+	delete(late, lastLost)
 	type queued struct {
 		at  int
 		idx int
@@ -215,6 +223,9 @@ func e2eSession(run *vk.Run, srv *vsrv.Server, a e2eArgs, s int) {
 	}
 	// let the loop's and the writer's NACKs and at least one more receiver report come out
 	time.Sleep(1300 * time.Millisecond)
+	if s%4 == 2 {
+		totalLossInterval(run, fail, tr, sub, ssrc, lastLost)
+	}
 	traces.mu.Lock()
 	evs := append([]traceEv(nil), traces.m[ssrc]...)
 	traces.mu.Unlock()
@@ -402,5 +413,84 @@ func e2eTier(run *vk.Run) {
 	run.FloorCounter("e2e_steady_lost_nacked", 50)
 	run.FloorCounter("e2e_nacked_seqnos_on_the_wire", 50)
 	run.FloorCounter("e2e_receiver_reports", int64(batches*sessions))
+	run.FloorCounter("e2e_total_loss_intervals_verified", 1)
 	run.Assume("receive-loop tier: the server-side order of stored/NACK events comes from three verif trace points in rtpconn (one added line each); the NACKs the publisher's PeerConnection receives are cross-checked against it")
+}
+
+// totalLossInterval: the stream has stopped.  Once a receiver report has gone out (the
+// interval counters start again), the subscriber asks again for a packet the server never
+// received; the server forwards the request upstream and expects that packet.  Nothing
+// arrives, so in the next reporting interval everything expected was lost: a report whose
+// cumulative loss has grown although the publisher sent nothing in its interval must carry
+// the maximal loss fraction 255, not a wrapped-around small one.
+func totalLossInterval(run *vk.Run, fail func(string, string, map[string]any), tr *vrtc.UpTrack, sub *vrtc.Peer, ssrc uint32, lastLost int) {
+	reports := func() []rtcp.ReceptionReport {
+		var out []rtcp.ReceptionReport
+		for _, e := range tr.RTCP() {
+			if rr, ok := e.P.(*rtcp.ReceiverReport); ok {
+				for _, rep := range rr.Reports {
+					if rep.SSRC == ssrc {
+						out = append(out, rep)
+					}
+				}
+			}
+		}
+		return out
+	}
+	waitMore := func(n int) bool {
+		for i := 0; i < 400; i++ {
+			if len(reports()) > n {
+				return true
+			}
+			time.Sleep(10 * time.Millisecond)
+		}
+		return false
+	}
+	// RR0: a report generated after the stream stopped
+	n0 := len(reports())
+	if !waitMore(n0) {
+		run.Count("e2e_total_loss_interval_no_report", 1)
+		return
+	}
+	base := len(reports())
+	// the subscriber asks for the lost packet by the number it would carry
+	asked := false
+	for _, d := range sub.Downs() {
+		for _, t := range d.Tracks() {
+			for _, p := range t.Packets() {
+				if id, ok := vrtc.IDOf("video", p.Payload); ok && int(id) == lastLost-1 {
+					d.PC.WriteRTCP([]rtcp.Packet{&rtcp.TransportLayerNack{MediaSSRC: uint32(t.Remote.SSRC()), Nacks: []rtcp.NackPair{{PacketID: p.SequenceNumber + 1}}}})
+					asked = true
+				}
+			}
+		}
+	}
+	if !asked {
+		run.Count("e2e_total_loss_interval_not_asked", 1)
+		return
+	}
+	// the next reports: all their intervals lie inside the pause
+	for k := 0; k < 3; k++ {
+		if !waitMore(base + k) {
+			break
+		}
+	}
+	rs := reports()
+	judged := false
+	for k := base; k < len(rs); k++ {
+		prev, cur := rs[k-1], rs[k]
+		run.Eval(1)
+		if cur.TotalLost > prev.TotalLost {
+			judged = true
+			if cur.FractionLost != 255 {
+				fail("e2e:total-loss-interval-reported-as-partial", fmt.Sprintf("the publisher sent nothing between two receiver reports; the cumulative loss grew from %d to %d (a retransmission the server asked for never came), so everything expected in that interval was lost, yet the report carries loss fraction %d/256 instead of the maximum 255", prev.TotalLost, cur.TotalLost, cur.FractionLost), map[string]any{"reports": rs[max(0, k-2) : k+1]})
+				return
+			}
+		}
+	}
+	if judged {
+		run.Count("e2e_total_loss_intervals_verified", 1)
+	} else {
+		run.Count("e2e_total_loss_interval_not_reached", 1)
+	}
 }
